@@ -431,7 +431,14 @@ fn argv_of(keys: &[Vec<u8>], op: &ROp, _exact_case: bool) -> Argv {
         ROp::Set { k, v, path } => a(&[if *path == Path::Generic { b"Set" } else { b"SET" }, &keys[*k], v]),
         ROp::Incr { k } => a(&[b"INCR", &keys[*k]]),
         ROp::Append { k, s } => a(&[b"APPEND", &keys[*k], s]),
-        ROp::GetSet { k, v } => a(&[b"GETSET", &keys[*k], v]),
+        // the same operation has two spellings: GETSET k v and SET k v GET (one in two)
+        ROp::GetSet { k, v } => {
+            if v.iter().map(|b| *b as usize).sum::<usize>() % 2 == 0 {
+                a(&[b"SET", &keys[*k], v, b"GET"])
+            } else {
+                a(&[b"GETSET", &keys[*k], v])
+            }
+        }
         ROp::SetNx { k, v } => a(&[b"SETNX", &keys[*k], v]),
         ROp::Del { k } => a(&[b"DEL", &keys[*k]]),
         ROp::Cas { k, expect, new } => a(&[b"EVAL", CAS_SCRIPT, b"1", &keys[*k], expect, new]),
